@@ -316,8 +316,12 @@ SStopSender(s) ==
     /\ sst[s] = "closing" /\ pcw[s] = {} /\ pcl[s] = {}
     /\ sst' = [sst EXCEPT ![s] = "down"]
     /\ wq' = [wq EXCEPT ![s] = <<>>]
-    /\ UNCHANGED <<has, ledger, c2p, p2c, rst, wasCanc, sub, pipe, got, larr, sim, sdown, sq, sw, calls, swt, sentTo,
-                   speers, bpm, bc, pwb, pwh, pcl, pcw, added>>
+    /\ LET \* repaired design: CANCELs the sender still owed (as in SShutdown)
+           owed == IF FixB THEN UNION {wq[s][i].ks : i \in {j \in 1..Len(wq[s]) : wq[s][j].t = "cancel"}} ELSE {} IN
+       /\ SetPW(CancelNow(PW, {k \in owed : sim[k] = {}}))
+       /\ pcl' = [pcl EXCEPT ![s] = Owed(@, {k \in owed : sim[k] = {}})]
+    /\ UNCHANGED <<has, ledger, p2c, rst, wasCanc, sub, pipe, got, larr, sim, sdown, sq, sw, calls, swt, sentTo,
+                   speers, bpm, pcw, added>>
 
 -----------------------------------------------------------------------------
 (* session want sender *)
